@@ -394,6 +394,39 @@ fn containers(o: &mut Out, i: usize, m: &[u8], nonce: &[u8; 24], key32: &[u8; 32
     let lk = HeapByteArray::<32>::from_slice_into_locked(key32).unwrap();
     let l: Locked<HeapByteArray<32>> = GenericHash::<32, 32>::hash(&HeapBytes::from_slice_into_locked(m).unwrap(), Some(&lk)).unwrap();
     o.same(&format!("gh:stack-vs-locked/{}", i), base.as_slice(), l.as_slice());
+    // the same edit sequence (fill, grow, overwrite part, shrink, grow again) on a Vec, a heap buffer, an unlocked and a locked
+    // region, then hashed: where the bytes live must not change them
+    {
+        let edit_vec = |mut v: Vec<u8>| -> Vec<u8> {
+            v.resize(m.len() + 37, 0x2e);
+            if !v.is_empty() {
+                v[0] ^= 1;
+            }
+            v.resize(m.len() / 2 + 1, 0);
+            v.resize(m.len() + 5000, 0x2f);
+            v
+        };
+        let want = edit_vec(m.to_vec());
+        let mut hbuf = hb(m);
+        hbuf.resize(m.len() + 37, 0x2e);
+        if !hbuf.is_empty() {
+            hbuf.as_mut_slice()[0] ^= 1;
+        }
+        hbuf.resize(m.len() / 2 + 1, 0);
+        hbuf.resize(m.len() + 5000, 0x2f);
+        o.same(&format!("resize:vec-vs-heap/{}", i), &want, hbuf.as_slice());
+        let mut lbuf = HeapBytes::from_slice_into_locked(m).unwrap();
+        lbuf.resize(m.len() + 37, 0x2e);
+        if !lbuf.is_empty() {
+            lbuf.as_mut_slice()[0] ^= 1;
+        }
+        lbuf.resize(m.len() / 2 + 1, 0);
+        lbuf.resize(m.len() + 5000, 0x2f);
+        o.same(&format!("resize:vec-vs-locked/{}", i), &want, lbuf.as_slice());
+        let hv: Vec<u8> = GenericHash::<32, 32>::hash(&lbuf, Some(&lk)).unwrap();
+        let hw: Vec<u8> = GenericHash::<32, 32>::hash(&want, Some(&key32.to_vec())).unwrap();
+        o.same(&format!("resize+hash:vec-vs-locked/{}", i), &hw, &hv);
+    }
     // kdf
     let ks: Kdf<StackByteArray<32>, StackByteArray<8>> = Kdf::from_parts(StackByteArray::from(*key32), StackByteArray::from(*b"ctxctxct"));
     let kl: dryoc::kdf::protected::LockedKdf = Kdf::from_parts(HeapByteArray::<32>::from_slice_into_locked(key32).unwrap(), HeapByteArray::<8>::from_slice_into_locked(b"ctxctxct").unwrap());
